@@ -221,6 +221,44 @@ theorem find_none_of_findS (r : Rx) : ∀ (txt : Bytes) (sh : List BSet), hasSha
     simp only [hasShape] at h'
     simp [find, matchAt, ms_nil_of_msS h hf.1, find_none_of_findS r t bs h'.2 hf.2]
 
+/-- the may-search under the left guard: a start position is skipped only when the byte before it is certainly a digit -/
+def findSG (g : Bool) (r : Rx) : Bool → List BSet → Bool
+  | pd, [] => !(g && pd) && !(msS r []).isEmpty
+  | pd, x :: s => (!(g && pd) && !(msS r (x :: s)).isEmpty) || findSG g r (within x dS) s
+
+theorem findFrom_none_of_findSG (g : Bool) (r : Rx) : ∀ (txt : Bytes) (sh : List BSet) (pd pd' : Bool), hasShape txt sh →
+    (pd' = true → pd = true) → findSG g r pd' sh = false → findFrom g r pd txt = none
+  | [], [], pd, pd', h, hpd, hf => by
+    simp only [findSG, Bool.and_eq_false_iff, Bool.not_eq_false', Bool.and_eq_true, List.isEmpty_iff] at hf
+    simp only [findFrom]
+    rcases hf with hf | hf
+    · have : (g && pd) = true := by simp [hf.1, hpd hf.2]
+      simp [this]
+    · split
+      · rfl
+      · simp [matchAt, ms_nil_of_msS h hf]
+  | [], _ :: _, _, _, h, _, _ => by simp [hasShape] at h
+  | _ :: _, [], _, _, h, _, _ => by simp [hasShape] at h
+  | c :: t, x :: bs, pd, pd', h, hpd, hf => by
+    have h' := h
+    simp only [hasShape] at h'
+    simp only [findSG, Bool.or_eq_false_iff, Bool.and_eq_false_iff, Bool.not_eq_false', Bool.and_eq_true, List.isEmpty_iff] at hf
+    have hnext : within x dS = true → (decide (48 ≤ c) && decide (c ≤ 57)) = true := by
+      intro hw
+      have := inCls_of_within hw h'.1
+      simpa [inCls, dS] using this
+    have ih := findFrom_none_of_findSG g r t bs (decide (48 ≤ c) && decide (c ≤ 57)) (within x dS) h'.2 hnext hf.2
+    simp only [findFrom]
+    rcases hf.1 with hf1 | hf1
+    · have : (g && pd) = true := by simp [hf1.1, hpd hf1.2]
+      simp [this, ih]
+    · split
+      · rename_i m hm
+        split at hm
+        · cases hm
+        · simp [matchAt, ms_nil_of_msS h hf1] at hm
+      · exact ih
+
 /-! ## the exact matcher -/
 
 theorem starRemD_sound (rg : BSet) : ∀ (txt : Bytes) (sh : List BSet) (rs : List (List BSet)), hasShape txt sh →
@@ -345,6 +383,25 @@ theorem msD_sound : ∀ (r : Rx) (txt : Bytes) (sh : List BSet) (rs : List (List
     simp only [msD] at hd
     simp only [ms]
     exact starRemD_sound rg txt sh rs h hd
+
+/-- the first match in priority order at the start of the text consumes the whole text -/
+theorem matchAt_whole_of_ownMatchD {r : Rx} {txt : Bytes} {sh : List BSet} (h : hasShape txt sh) (ho : ownMatchD r sh = true) :
+    matchAt r txt = some txt := by
+  simp only [ownMatchD] at ho
+  split at ho
+  · rename_i rem rest hd
+    have hrem : rem = [] := by simpa using ho
+    subst hrem
+    have hs := msD_sound r txt sh _ h hd
+    cases hm : ms r txt with
+    | nil => rw [hm] at hs; simp [allShapes] at hs
+    | cons m ms' =>
+      rw [hm] at hs
+      simp only [allShapes] at hs
+      have : m = [] := hasShape_nil_right hs.1
+      subst this
+      simp [matchAt, hm]
+  · cases ho
 
 /-- the first match in priority order consumes the whole text ⇒ the unanchored search returns the whole text -/
 theorem find_whole_of_ownMatchD {r : Rx} {txt : Bytes} {sh : List BSet} (h : hasShape txt sh) (ho : ownMatchD r sh = true) :
